@@ -34,6 +34,11 @@ func sniffHTTPHostHeader(data []byte) (string, error) {
 		if len(line) == 0 {
 			break
 		}
+		// A line that starts with white space continues the previous header (obs-fold,
+		// RFC 7230 section 3.2.4); it never starts a header of its own.
+		if line[0] == ' ' || line[0] == '\t' {
+			continue
+		}
 		key, value, found := bytes.Cut(line, httpHeaderSep)
 		if !found {
 			// Bad key value.
@@ -71,5 +76,12 @@ func (s *Sniffer) SniffHttp() (d string, err error) {
 
 	// Now we assume it is an HTTP packet. We should not return NotApplicableError after here.
 
-	return sniffHTTPHostHeader(s.buf.Bytes())
+	// Only complete (CRLF-terminated) lines are examined. What has been read so far may end
+	// in the middle of a header line; a Host value cut short there is not the host name.
+	head := s.buf.Bytes()
+	lastLineEnd := bytes.LastIndex(head, httpLineSep)
+	if lastLineEnd < 0 {
+		return "", ErrNotFound
+	}
+	return sniffHTTPHostHeader(head[:lastLineEnd+len(httpLineSep)])
 }
